@@ -250,12 +250,7 @@ Definition h_install_snapshot (now : N) (n : node) (q : is_req) : node * option 
   let n3 := n2 <| n_contact := now |> in
   let reply n' w := (n', Some {| isr_term := rterm; isr_written := w |}) in
   if (is_lii q <=? n_lii n3) || (is_lii q <=? n_applied n3) then reply n3 0 else
-  (* fix: D10 - a chunk of a snapshot other than the one being received is ignored *)
-  let stale := match n_partial n3 with
-               | Some p => negb (s_index p <? is_lii q) && negb ((s_index p =? is_lii q) && (s_term p =? is_lit q))
-               | None => false
-               end in
-  if stale then reply n3 0 else
+  (* known finding D10: a chunk of an older snapshot is appended to the partial file of a newer one *)
   let n4 := match n_partial n3 with
             | Some p => if s_index p <? is_lii q then n3 <| n_partial := None |> else n3
             | None => n3
